@@ -187,6 +187,20 @@ const PATHS: &[&str] = &["nofile.txt", "./no/such/dir", "", ".", "a/b/../c", "x 
 const NAMESV: &[&str] = &["v1", "v2", "v3", "undefined_var", "ha", "hm", "o1", "o2", "", "a b", "scope::x", "1"];
 const HANDLE_VARS: &[&str] = &["ha", "hm", "hs", "hb", "hr", "he"];
 
+/// A value shaped like a common fixed-width format (colour, time, date, version, uuid ...) in which 2..4 bytes are
+/// replaced by ONE character of that many bytes: same byte length, but a character across any byte offset a parser of
+/// the format might cut at.
+fn format_lookalike(t: &mut Tape) -> String {
+    let template = *t.pick_ref(&["#123456", "#fff", "12:34:56", "2024-01-02", "1.2.3", "10.0.0.1", "0x1F2E", "a@b.co", "rgb(1,2,3)", "ff00ff", "1,234.5", "01/02/2024", "550e8400-e29b-41d4-a716-446655440000", "http://h/p?q=1", "rgb_1_2_3", "bright_red", "-12.50", "1e-3"]);
+    let w = 2 + t.below(3);
+    if template.len() < w {
+        return template.to_string();
+    }
+    let p = t.below(template.len() - w + 1);
+    let ch = ["é", "日", "😀"][w - 2];
+    format!("{}{}{}", &template[..p], ch, &template[p + w..])
+}
+
 fn arg_for(t: &mut Tape, k: &Kind, outs: usize, bounded: bool) -> String {
     if bounded {
         // resource-proportional command: literal small numbers only, never a value computed by an earlier line
@@ -203,7 +217,9 @@ fn arg_for(t: &mut Tape, k: &Kind, outs: usize, bounded: bool) -> String {
         },
         Kind::Number => t.pick(NUMBERS).to_string(),
         Kind::Text => {
-            if t.chance(1, 6) {
+            if t.chance(1, 10) {
+                format_lookalike(t)
+            } else if t.chance(1, 6) {
                 let mut s = hazard_string(t, 3);
                 s.retain(|c| c != '\n' && c != '\r');
                 s
@@ -219,7 +235,13 @@ fn arg_for(t: &mut Tape, k: &Kind, outs: usize, bounded: bool) -> String {
             2 => t.pick(NUMBERS).to_string(),
             3 => t.pick(NAMESV).to_string(),
             4 => t.pick(PATHS).to_string(),
-            _ => t.pick(TEXTS).to_string(),
+            _ => {
+                if t.chance(1, 8) {
+                    format_lookalike(t)
+                } else {
+                    t.pick(TEXTS).to_string()
+                }
+            }
         },
     }
 }
@@ -630,7 +652,7 @@ fn case_cycle(t: &mut Tape, st: &mut Stats) -> Verdict {
 pub fn property() -> Property {
     Property {
         id: "C07",
-        rule: "(commands) 1..25 (thorough ..80) lines after a preamble that creates an array, maps, a set, a byte array, a released handle and variables; each line invokes ANY registered name of the SDK (all aliases and canonical names, minus the removed families) with an argument list drawn from a TYPED pool derived from the usage line of its help text (handles of the right/wrong kind, released, unknown; numbers incl. negative, huge, decimal, non-numeric, non-ASCII digits; multi-byte and syntax-bearing text; variable names; relative non-existing paths; documented flags) or from an UNTYPED pool (any value anywhere), with outputs chained into later arguments, exit_on_error toggles, finite for loops (whose body may shorten, clear, release or re-point the iterated array), user aliases of SDK commands and user functions with SDK-only bodies; one case in five is run in two parts, the second part on the context returned by the first; (env-names) set_env (also --handle) / get_env / unset_env / env_to_map with hazard names (empty, with '=' or NUL) and values (with NUL), accepted names prefixed so that no real variable is touched; (text) token soup of real command names, syntax characters and hazard strings; (include-cycle) files forming an include cycle of length 1..4 with relative/absolute/.. paths, parsed in a child process. Oracle: the run returns Ok or Err - a panic (caught, with location) is a violation; every shard runs in a child process, so an abort or stack overflow is attributed to the case that was running; fuel or nesting-limit exhaustion in (commands) is the 'does not finish' verdict because no generated line is a loop construct, alias of an alias, or recursive function; in (text) it is only counted. Non-trivial: every (commands) case; distinct by script text",
+        rule: "(commands) 1..25 (thorough ..80) lines after a preamble that creates an array, maps, a set, a byte array, a released handle and variables; each line invokes ANY registered name of the SDK (all aliases and canonical names, minus the removed families) with an argument list drawn from a TYPED pool derived from the usage line of its help text (handles of the right/wrong kind, released, unknown; numbers incl. negative, huge, decimal, non-numeric, non-ASCII digits; multi-byte and syntax-bearing text; look-alikes of fixed-width formats (#rrggbb, hh:mm:ss, dates, versions, uuid ...) with one multi-byte character in place of 2..4 bytes; variable names; relative non-existing paths; documented flags) or from an UNTYPED pool (any value anywhere), with outputs chained into later arguments, exit_on_error toggles, finite for loops (whose body may shorten, clear, release or re-point the iterated array), user aliases of SDK commands and user functions with SDK-only bodies; one case in five is run in two parts, the second part on the context returned by the first; (env-names) set_env (also --handle) / get_env / unset_env / env_to_map with hazard names (empty, with '=' or NUL) and values (with NUL), accepted names prefixed so that no real variable is touched; (text) token soup of real command names, syntax characters and hazard strings; (include-cycle) files forming an include cycle of length 1..4 with relative/absolute/.. paths, parsed in a child process. Oracle: the run returns Ok or Err - a panic (caught, with location) is a violation; every shard runs in a child process, so an abort or stack overflow is attributed to the case that was running; fuel or nesting-limit exhaustion in (commands) is the 'does not finish' verdict because no generated line is a loop construct, alias of an alias, or recursive function; in (text) it is only counted. Non-trivial: every (commands) case; distinct by script text",
         assumptions: &[
             "removed from the context before anything runs (stated exclusions + safety of the root-run checker): exec, spawn, exit/quit/q, watchdog, sleep, read, network commands, hostname, cd, set_env/unset_env, test_directory/test_file, every command that creates, modifies, deletes, lists or reads files (writefile, appendfile, cp, mv, rm, mkdir, touch, chmod, zip, glob_array, ls, cat, readfile, digest ...), which, man, and the internal:: family (its documentation generator writes a file to any path it is given)",
             "resource-proportional requests are bounded: range / random_text / random_range only receive literal numbers of magnitude <= 255, never a value computed by an earlier line, and are not spelled in the text soup",
